@@ -2077,7 +2077,9 @@ class Parallel(Logger):
                     pre_dispatch = eval_expr(
                         pre_dispatch.replace("n_jobs", str(n_jobs))
                     )
-                self._pre_dispatch_amount = pre_dispatch = int(pre_dispatch)
+                # At least one task has to be pre-dispatched, or nothing would
+                # ever be dispatched (e.g. pre_dispatch='0.1*n_jobs').
+                self._pre_dispatch_amount = pre_dispatch = max(1, int(pre_dispatch))
         except BaseException:
             # The call cannot start (e.g. the input's __iter__ raised): do not
             # leave this object in the running state for ever.
